@@ -2,18 +2,23 @@
 
 Explorer shape E4 (choice-point ownership of hidden nondeterminism) + E2 (cache histories).
 
- P0  static proof obligation, repeated on every run: in every loaded giscanner module every set
+ P0  static proof obligations, repeated on every run: in every loaded giscanner module every set
      is created by a call of the global NAME `set` (no literal, comprehension, frozenset, dict-view
-     algebra, rebinding) - otherwise HarnessBroken (fail closed).
+     algebra, rebinding), and the modules on the path to the GIR never call hash()/id() outside
+     __hash__, list directories, read the clock or draw random numbers.  If an obligation fails the
+     run still explores (a violation it finds is real) but can no longer pass: HarnessBroken.
  P1  the name `set` of those modules is bound to vt.choice.ChoiceSet; every iteration of a set with
      >= 2 elements is a choice point; ALL executions with <= D non-default permutations are run
-     (sets of <= 4 elements fully permuted, larger ones by transpositions/reversal/rotations).
+     (sets of <= 4 (thorough: 5) elements fully permuted, larger ones by transpositions / reversal /
+     rotations).  D exceeds the number of choice points of every input, i.e. every combination of
+     the offered permutations is executed.
      Audit per input: (a) the patched default run is byte-identical to the unpatched run, (b) no
      object of exact type set/frozenset is reachable from the namespace / transformer / blocks,
      (c) no giscanner frame ever holds a plain set in a local variable (line-level trace).
      Oracle: GIR bytes == reference bytes.
  P2  arrival orders (also inside the runtime dump: top-level elements and the property / signal /
-     implements / prerequisite children of each type): every C-admissible permutation of the declarations displacing <= m of them (all
+     implements / prerequisite children of each type): every C-admissible permutation of the
+     declarations displacing <= m of them (all
      permutations for short lists; plus rotations, reversal, header-file swap), once with each
      declaration keeping its own line (bytes must be equal) and once with line numbers following the
      new order (bytes equal after blanking source-position line numbers => sibling order is a function
@@ -23,7 +28,7 @@ Explorer shape E4 (choice-point ownership of hidden nondeterminism) + E2 (cache 
  P3  on the reference outputs: one global "comes before" relation on (parent kind, kind, name) must be
      antisymmetric over all outputs; parameters, fields and enum members are in declaration order.
  P4  cache histories (E2): every history of <= L operations ending in a run, over
-     {run, edit dep, garbage/truncate/drop/age entry, invalidate cache version}, on real files below
+     {run, edit dep, five kinds of broken entry, drop entry, age entry, invalidate cache version}, on real files below
      .build/c16/; after EVERY run the GIR equals the cache-disabled GIR for the current dependency files.
  P5  K fresh interpreters with distinct PYTHONHASHSEED (cross-check of the ChoiceSet argument).
 """
@@ -53,9 +58,9 @@ REQUIRED = ['giscanner.ast', 'giscanner.transformer', 'giscanner.maintransformer
             'giscanner.cachestore', 'giscanner.xmlwriter', 'giscanner.sourcescanner']
 
 BOUNDS = {
-    'quick': {'dev': 4, 'decl_moved': 3, 'decl_full': 5, 'block_moved': 4, 'block_full': 5, 'hist': 3,
+    'quick': {'dev': 64, 'full_upto': 4, 'decl_moved': 3, 'decl_full': 5, 'block_moved': 4, 'block_full': 5, 'hist': 3,
               'seeds': 3},
-    'thorough': {'dev': 64, 'decl_moved': 4, 'decl_full': 6, 'block_moved': 5, 'block_full': 6, 'hist': 4,
+    'thorough': {'dev': 64, 'full_upto': 5, 'decl_moved': 4, 'decl_full': 6, 'block_moved': 5, 'block_full': 6, 'hist': 4,
                  'seeds': 16},
 }
 
@@ -73,8 +78,13 @@ def pipeline_modules():
     return mods
 
 
+STATIC_NOTES = []
+
+
 def static_scan():
-    """P0.  Returns (modules scanned, set() call sites)."""
+    """P0.  Returns (modules scanned, set() call sites).  Failed proof obligations are collected in
+    STATIC_NOTES: the exploration still runs (a violation it finds is real), but without a violation
+    the run ends as HarnessBroken - the check never passes with an obligation open."""
     mods = pipeline_modules()
     problems = []
     calls = 0
@@ -91,14 +101,16 @@ def static_scan():
     inv = []
     for m in gir_path:
         inv += choice.inventory_source(m.__file__)
+    notes = []
     if inv:
-        raise HarnessBroken('nondeterminism inventory changed (a source of run-to-run variation other than set '
-                            'iteration is now on the path to the GIR; this check does not own it): ' + '; '.join(inv[:6]))
+        notes.append('nondeterminism inventory changed (a source of run-to-run variation other than set iteration '
+                     'is now on the path to the GIR; the explorer does not own it): ' + '; '.join(inv[:6]))
     if problems:
-        raise HarnessBroken('a set can be created outside the explorer\'s control; extend vt/choice.py before '
-                            'trusting this check: ' + '; '.join(problems[:8]))
+        notes.append('a set can be created outside the explorer\'s control; extend vt/choice.py before trusting '
+                     'this check: ' + '; '.join(problems[:8]))
     if calls < 5:
         raise HarnessBroken('static scan found only %d set() call sites - wrong modules?' % calls)
+    STATIC_NOTES[:] = notes
     return len(mods), calls
 
 
@@ -241,17 +253,18 @@ def _work_audit(chunk):
                     raise HarnessBroken('installing ChoiceSet changed the diagnostics of %s' % name)
             roots = [res.namespace, res.transformer, res.blocks]
             plain_sets, owned = reachable_plain_sets(roots)
+            notes = []
             if plain_sets:
-                raise HarnessBroken('%s: plain set objects reachable from the pipeline state: %s' % (name, plain_sets[:3]))
+                notes.append('%s: plain set objects reachable from the pipeline state: %s' % (name, plain_sets[:3]))
             hits, nlines, res2 = trace_locals(inp)
             if hits:
-                raise HarnessBroken('%s: giscanner code holds plain sets the explorer does not own: %s' % (name, hits[:4]))
+                notes.append('%s: giscanner code holds plain sets the explorer does not own: %s' % (name, hits[:4]))
             if observe(res2) != observe(res):
                 raise HarnessBroken('tracing changed the output of %s' % name)
             part.add(evaluations=3, audit_lines_traced=nlines, choice_sets_reachable=owned,
                      choice_sets_created=created, trivial_iterations=small)
             out[name] = {'trace': trace, 'sha': sha(observe(res)), 'xml': observe(res).decode('utf-8'),
-                         'created': created, 'native_differs': native_differs,
+                         'created': created, 'native_differs': native_differs, 'notes': notes,
                          'native_sha': sha(observe(plain))}
         finally:
             choice.uninstall()
@@ -279,7 +292,7 @@ def _minimise(inp, script, ref):
 
 def _work_choice(chunk):
     part = Part()
-    name, firsts, max_dev = chunk
+    name, firsts, max_dev, full_upto = chunk
     inp = I.by_name(name)
     choice.install(pipeline_modules())
     try:
@@ -292,7 +305,7 @@ def _work_choice(chunk):
             res, trace = scripted(inp, script)
             return res, trace
         for first in firsts:
-            for script, res, trace in choice.explore(execute, max_dev, ref_trace, first=first):
+            for script, res, trace in choice.explore(execute, max_dev, ref_trace, first=first, full_upto=full_upto):
                 part.add(evaluations=1, traces_validated_against_impl=1, states=1, transitions=len(script))
                 if choice.EXPLORER.applied != len(script):
                     raise HarnessBroken('script %r of %s: %d of %d deviations applied' % (
@@ -585,7 +598,8 @@ def cache_menu(tier):
     if tier == 'thorough':
         ops.append(('run', 1))
     for f in EDITABLE:
-        ops += [('edit', f), ('garbage', f), ('truncate', f), ('drop', f), ('age', f)]
+        ops += [('edit', f), ('garbage', f), ('empty', f), ('text', f), ('badglobal', f), ('truncate', f), ('drop', f),
+                ('age', f)]
     ops.append(('version',))
     return ops
 
@@ -599,6 +613,22 @@ def cache_histories(tier, maxlen):
             for last in runs:
                 out.append(list(pre) + [last])
     return out
+
+
+def foreign_pickle():
+    """A well-formed pickle whose class cannot be imported - what an entry written by another
+    version of the scanner looks like (pickle.load raises ModuleNotFoundError)."""
+    import pickle
+    name = 'giscanner_c16_nosuchmod'
+    m = types.ModuleType(name)
+    cls = type('GIRParser', (object,), {})
+    cls.__module__ = name
+    m.GIRParser = cls
+    sys.modules[name] = m
+    try:
+        return pickle.dumps(cls(), protocol=2)
+    finally:
+        del sys.modules[name]
 
 
 class CacheWorld(object):
@@ -653,10 +683,13 @@ class CacheWorld(object):
             I.write_atomic(self.path(f), I.dep_text(f, self.edition[f]), self.now())
             if self.model[f] == 'fresh':
                 self.model[f] = 'stale'
-        elif k in ('garbage', 'truncate'):
+        elif k in ('garbage', 'truncate', 'empty', 'text', 'badglobal'):
             f = op[1]
             e = self.entry(f)
-            data = b'\x00garbage that is not a pickle\xff' * 3
+            data = {'garbage': b'\x00garbage that is not a pickle\xff' * 3, 'truncate': b'\x80\x04\x95',
+                    'empty': b'', 'text': b'garbage in, garbage out\n',
+                    # what an entry written by another version of the scanner looks like
+                    'badglobal': foreign_pickle()}[k]
             if k == 'truncate' and os.path.exists(e):
                 with open(e, 'rb') as fh:
                     whole = fh.read()
@@ -819,7 +852,7 @@ def _seed_main():
     sys.stdout.write(json.dumps(out, sort_keys=True) + '\n')
 
 
-def hashseed_runs(seeds, names=None):
+def hashseed_start(seeds):
     env = dict(os.environ)
     env['PYTHONPATH'] = '%s:%s' % (ROOT, REPO)
     env['VERIF_REPO'] = REPO
@@ -830,6 +863,10 @@ def hashseed_runs(seeds, names=None):
         e['PYTHONHASHSEED'] = str(s)
         procs.append((s, subprocess.Popen([sys.executable, '-c', 'from vt.checks import c16; c16._seed_main()'],
                                           env=e, cwd=ROOT, stdout=subprocess.PIPE, stderr=subprocess.PIPE)))
+    return procs
+
+
+def hashseed_collect(procs):
     out = {}
     for s, p in procs:
         so, se = p.communicate()
@@ -837,6 +874,18 @@ def hashseed_runs(seeds, names=None):
             raise HarnessBroken('hash-seed subprocess %s failed: %s' % (s, se.decode()[-400:]))
         out[s] = json.loads(so.decode().strip().split('\n')[-1])
     return out
+
+
+def hashseed_runs(seeds):
+    return hashseed_collect(hashseed_start(seeds))
+
+
+def _work_any(chunk):
+    """One pool for all partitions (creating a pool is the expensive part on a busy machine)."""
+    kind, payload = chunk
+    r = {'choice': _work_choice, 'perm': _work_perm, 'cache': _work_cache}[kind](payload)
+    r['kind'] = kind
+    return r
 
 
 # --------------------------------------------------------------------- run ---
@@ -870,29 +919,36 @@ def run(ctx):
     names = [i['name'] for i in inputs]
     ctx.set(rule='E4: every iteration of every set created by the pipeline modules is a choice point (ChoiceSet bound '
                  'to the module-global name set; static scan + per-input object-graph and line-trace audit prove no '
-                 'other set exists); all executions with <= %d non-default permutations (sets <= 4 fully permuted). '
+                 'other set exists); all executions with <= %d non-default permutations (sets <= %d fully permuted), which '
+                 'is every combination of the offered permutations. '
                  'Arrival orders: all C-admissible declaration orders displacing <= %d items (all orders for <= %d '
                  'items) with fixed and with re-assigned line numbers, all comment-block orders displacing <= %d '
                  '(all for <= %d), 16 block-to-file assignments x file orders. E2: every cache history of <= %d '
                  'operations ending in a run, on real files. Oracle: GIR bytes equal to the reference run (resp. to '
                  'the cache-disabled run). non-trivial = distinct (input, deviated sites) / permutation / cache state '
-                 'in which the oracle compared bytes' % (b['dev'], b['decl_moved'], b['decl_full'], b['block_moved'],
+                 'in which the oracle compared bytes' % (b['dev'], b['full_upto'], b['decl_moved'], b['decl_full'], b['block_moved'],
                                                            b['block_full'], b['hist']),
             bounds=dict(b, inputs=len(inputs), choiceset_selftest_assertions=nsel, modules_scanned=nmods,
                         set_call_sites=ncalls))
 
     # ---- P1 audit + reference traces
+    seeds = [1 + i * 977 for i in range(b['seeds'] if want('seeds') else 0)]
+    seed_procs = hashseed_start(seeds)          # fresh interpreters run while the pool works
     audit = {}
-    for r in pmap(_work_audit, chunked(rotate(names, ctx.seed), len(names))):
-        audit.update(r.pop('audit'))
-        ctx.merge(r)
+    r = _work_audit(names)
+    audit.update(r.pop('audit'))
+    ctx.merge(r)
+    for n in names:
+        for x in audit[n]['notes']:
+            if x not in STATIC_NOTES:
+                STATIC_NOTES.append(x)
     phase('audit')
     refs = {n: audit[n]['xml'].encode('utf-8') for n in names}
     sizes = {n: [t[0] for t in audit[n]['trace']] for n in names}
     total_points = sum(len(v) for v in sizes.values())
     if total_points < 30 or sum(1 for n in names if sizes[n]) < len(names) - 1:
         raise HarnessBroken('vacuous: only %d choice points with >= 2 elements over %d inputs' % (total_points, len(names)))
-    sites = sorted(set(t[1] for n in names for t in audit[n]['trace']))
+    sites = sorted(set('%s@%d' % (t[1], t[2]) for n in names for t in audit[n]['trace']))
     if len(sites) < 6:
         raise HarnessBroken('vacuous: choice points at only %d source sites: %r' % (len(sites), sites))
     if max(max(v) for v in sizes.values() if v) < 3:
@@ -900,7 +956,7 @@ def run(ctx):
     full_menu = b['dev'] >= max(len(v) for v in sizes.values())
     ctx.set(choice_exploration_covers_every_combination_of_offered_permutations=full_menu,
             choice_points={n: len(sizes[n]) for n in names}, choice_sites=sites,
-            choice_executions_if_traces_stable={n: choice.count_bound(sizes[n], b['dev']) for n in names})
+            choice_executions_if_traces_stable={n: choice.count_bound(sizes[n], b['dev'], b['full_upto']) for n in names})
 
     # ---- P1 exploration, partitioned by (input, first deviated choice point)
     chunks = []
@@ -908,19 +964,8 @@ def run(ctx):
         ks = list(range(len(sizes[n])))
         per = 1
         for i in range(0, len(ks), per):
-            chunks.append((n, ks[i:i + per], b['dev']))
-    if not want('choice'):
-        chunks = []
-    for r in pmap(_work_choice, rotate(chunks, ctx.seed)):
-        ctx.merge(r)
-    order_dependent = set()
-    for key in [v[0] for v in ctx.violations] + list(ctx.known_hits):
-        if key.startswith('choice:'):
-            order_dependent.add(key.split(':')[1])
-    for n in names:
-        if audit[n]['native_differs'] and n not in order_dependent and want('choice'):
-            raise HarnessBroken('installing ChoiceSet changed the output of %s but no explored permutation does' % n)
-    phase('choice')
+            chunks.append((n, ks[i:i + per], b['dev'], b['full_upto']))
+    work = [('choice', c) for c in chunks] if want('choice') else []
 
     # ---- P2 arrival orders
     chunks = []
@@ -940,13 +985,27 @@ def run(ctx):
         if dc:
             chunks.append((inp['name'], 'dump', dc))
     ctx.set(inadmissible_declaration_orders_skipped=rejected)
-    if not want('arrival'):
-        chunks = []
+    if want('arrival'):
+        work += [('perm', c) for c in chunks]
+    hists = cache_histories(ctx.tier, b['hist']) if want('cache') else []
+    work += [('cache', (i, c)) for i, c in enumerate(chunked(hists, max(NCPU, 1) * 2))]
     pv = []
-    for r in pmap(_work_perm, rotate(chunks, ctx.seed)):
-        pv += r.pop('perm_violations')
+    cache_states = set()
+    for r in pmap(_work_any, rotate(work, ctx.seed)):
+        kind = r.pop('kind')
+        if kind == 'perm':
+            pv += r.pop('perm_violations')
+        elif kind == 'cache':
+            cache_states.update(r.pop('cache_states'))
         ctx.merge(r)
-    phase('arrival')
+    order_dependent = set()
+    for key in [v[0] for v in ctx.violations] + list(ctx.known_hits):
+        if key.startswith('choice:'):
+            order_dependent.add(key.split(':')[1])
+    for n in names:
+        if audit[n]['native_differs'] and n not in order_dependent and want('choice'):
+            raise HarnessBroken('installing ChoiceSet changed the output of %s but no explored permutation does' % n)
+    phase('explore')
     first = {}
     for name, mode, rank, p, d in sorted(pv, key=lambda v: (v[0], v[1], v[2])):
         first.setdefault((name, mode), (p, d))
@@ -988,16 +1047,10 @@ def run(ctx):
 
     phase('relation')
     # ---- P4 cache histories
-    hists = cache_histories(ctx.tier, b['hist']) if want('cache') else []
-    hchunks = [(i, c) for i, c in enumerate(chunked(rotate(hists, ctx.seed), max(NCPU, 1) * 2))]
-    cache_states = set()
-    for r in pmap(_work_cache, hchunks):
-        cache_states.update(r.pop('cache_states'))
-        ctx.merge(r)
     kinds = set()
-    for s in cache_states:
+    for st in cache_states:
         for k in ('none', 'fresh', 'stale', 'corrupt'):
-            if "'%s'" % k in s:
+            if "'%s'" % k in st:
                 kinds.add(k)
     if kinds != {'none', 'fresh', 'stale', 'corrupt'} and want('cache'):
         raise HarnessBroken('cache histories did not reach every entry state: %r' % sorted(kinds))
@@ -1008,8 +1061,7 @@ def run(ctx):
 
     phase('cache')
     # ---- P5 real hash seeds
-    seeds = [1 + i * 977 for i in range(b['seeds'] if want('seeds') else 0)]
-    got = hashseed_runs(seeds)
+    got = hashseed_collect(seed_procs)
     confirmed = set()
     for s in seeds:
         ctx.add(evaluations=len(names), traces_validated_against_impl=len(names))
@@ -1032,12 +1084,17 @@ def run(ctx):
         'a permutation of declarations is considered only if every typedef name defined in the input is defined before it is used (valid C)',
         'comment blocks have pairwise distinct identifiers ("last block wins" for duplicates is documented and order-dependent by design)',
         'the order of diagnostics on stderr is not part of the statement: runs whose GIR is identical but whose warnings are reordered are counted as unspecified',
-        'a cache entry is corrupt if it is not the complete pickle written by a previous run (garbage, truncated); an entry that is a well-formed pickle of a foreign object is outside the alphabet',
+        'a cache entry is corrupt if pickle.load cannot rebuild a parser from it (binary garbage, text, empty file, truncated pickle, pickle of a class that cannot be imported); an entry that unpickles to a foreign object is outside the alphabet',
         'cache timestamps use a logical clock (mtimes set by the harness after each operation in event order)',
         'vt/choice.py, vt/scan/fake.py (stub C scanner module) and the miniature/generated dependency GIRs are trusted',
     ]
     if len(ctx._outcomes) < 8 and not only:
         raise HarnessBroken('vacuous exploration: %d outcomes' % len(ctx._outcomes))
+    if STATIC_NOTES:
+        ctx.assumptions += ['OPEN PROOF OBLIGATION: ' + x for x in STATIC_NOTES]
+        ctx.cap('static proof obligations failed')
+        if not ctx.violations and not ctx.known_hits:
+            raise HarnessBroken(' | '.join(STATIC_NOTES))
 
 
 # ------------------------------------------------------------------ replay ---
@@ -1094,8 +1151,8 @@ def replay(ctx, case):
         finally:
             choice.uninstall()
         for k in sorted(script):
-            print('choice point %d at %s: set of %d elements iterated in order %r instead of insertion order' % (
-                k, trace[k][1], trace[k][0], script[k]))
+            print('choice point %d at %s (line %d): set of %d elements iterated in order %r instead of insertion order' % (
+                k, trace[k][1], trace[k][2], trace[k][0], script[k]))
         a, b = observe(ref_res), observe(res)
         print('reference %s, permuted %s: %s' % (sha(a), sha(b), first_diff(a, b)))
         # the same on the unmodified interpreter: does a real hash seed produce both outputs?
